@@ -160,6 +160,11 @@ func runCheck(args []string) int {
 		budget = time.Duration(n) * time.Second
 	}
 	r.deadline = t0.Add(budget)
+	if old, _ := filepath.Glob(filepath.Join(verifDir(), "replays", id+"-*.json")); old != nil {
+		for _, f := range old {
+			os.Remove(f)
+		}
+	}
 	r.known = knownKeys(id)
 	only := os.Getenv("QSYM_ONLY")
 	for hi, h := range chk.Harnesses {
